@@ -1,11 +1,14 @@
 -- root of the library: importing the audit modules pulls in every model, lemma, bridge and property file
 import LapyVerif.Audit.C01
 import LapyVerif.Audit.C02
-import LapyVerif.Audit.C06
-import LapyVerif.Audit.C13
-import LapyVerif.Audit.C09
+import LapyVerif.Audit.C03
+import LapyVerif.Audit.C04
 import LapyVerif.Audit.C05
-import LapyVerif.Audit.C12
+import LapyVerif.Audit.C06
 import LapyVerif.Audit.C07
-import LapyVerif.Audit.C20
+import LapyVerif.Audit.C09
 import LapyVerif.Audit.C10
+import LapyVerif.Audit.C11
+import LapyVerif.Audit.C12
+import LapyVerif.Audit.C13
+import LapyVerif.Audit.C20
